@@ -657,7 +657,7 @@ fn gen(a: &Args) {
             78..=82 => "float4",
             83..=86 => "toast_blob",
             87..=96 => "misfit",
-            _ => if i % 8 == 0 || thorough { "big_var" } else { "structured" },
+            _ => if i % 8 == 0 || (thorough && i % 3 == 0) { "big_var" } else { "structured" },
         };
         let g = gen_row_case(&mut rng, kind);
         push_row_case(&mut w, g);
